@@ -210,7 +210,8 @@ func genMixedLists(t *rapid.T, fileChance int) (lists []ListSpec, models []NetMo
 		lines = append(lines, renderNet(t, m), renderNet(t, tw))
 	}
 	if chance(t, "shared-host-lines", 2) {
-		lines = append(lines, "0.0.0.0 shared.example alias1.example", "10.0.0.1 shared.example alias2.example", "::1 alias3.example shared.example")
+		lines = append(lines, "0.0.0.0 shared.example alias1.example", "10.0.0.1 shared.example alias2.example", "::1 alias3.example shared.example",
+			"127.0.0.1 twice.example twice.example", "::1 twice.example other.twice.example twice.example")
 	}
 	if chance(t, "regex-block", 2) {
 		lines = append(lines, "/ads[0-9]?/", "/banner_?ad/", "/exampl[e]\\.org/", "/goog+le/", "/x\\.js$/$script", "/^https?:\\/\\/a\\.com/", "@@/adsa[0-9]/",
